@@ -514,6 +514,15 @@ def monitor(script):
             if not ids:
                 m.hit("C19:empty-after-deep-mark" if invalid else "C19:empty", f"`{op}` returned an empty locator")
                 continue
+            if latest_mode and main_net and not invalid:
+                # main net above a mocked header: best-chain hashes <= max, plus at most one fork-point hash per configured
+                # split (two on main net); only exact without side branches
+                kids2 = {}
+                for x in accepted:
+                    if x in defs:
+                        kids2[defs[x][0]] = kids2.get(defs[x][0], 0) + 1
+                if all(v == 1 for v in kids2.values()) and len(ids) > max(mx, 1) + 2:
+                    m.hit("C19:too-many", f"`{op}` returned {len(ids)} hashes on a chain without side branches, more than max={mx} plus the two split fork points")
             if chain_valid and not latest_mode:
                 cset = {str(x) for x in chain}
                 onbest = [x for x in ids if x in cset]
